@@ -46,6 +46,18 @@ CHECKS.update({
  'C05': plan('3/C05', 'Reusable-resource problems enumerated by PlanGen.tla plus repository examples: on every reported solution the exact sum of amounts at every start instant is within capacity and per-segment usage of the extracted timeline equals the sum over the covering atoms.'),
  'C06': plan('3/C06', 'The fact/goal x predicate-kind x direct/rule x time-pattern family plus all repository examples: every active interval atom satisfies origin <= start <= end <= horizon and duration = end - start >= 0, every active impulse atom origin <= at <= horizon, in exact arithmetic.'),
 })
+CHECKS.update({
+ 'C16': dict(cat='model_checking', design='3/C16', note=PLAN_NOTE + ' Lexing: riddle_driver prints the token kinds answered by riddle::lexer.',
+    text='Lexing: every string up to length 4/5 over a 10-character alphabet plus a keyword/operator dictionary, enumerated by LexGen.tla with expected token kinds from the TLA+ lexical definition (Lexer!Lex); the real lexer must answer the same kinds or an error at the same token (LexTrace). Evaluation: expression trees (arithmetic with unary minus, + - * /, relations, connectives) enumerated by ExprGen.tla, printed with the minimal parentheses required by the documented precedence, in four syntactic contexts, with exact expected values; the real parser + core + solver must accept each program and give the pinned variable exactly that value (PlanTrace expect lines).',
+    technique='TLA+ lexical definition and expression evaluator as generators + oracles; TLC validation of the real lexer/parser/solver answers'),
+ 'C17': dict(cat='model_checking', design='3/C17', note=PLAN_NOTE,
+    text='Class tables (chain, fork, two supertypes), instance creation orders, a variable declared among them and one constraint, enumerated by ObjGen.tla with the reference semantics; the domain at declaration (hook on object-variable creation) must be exactly the instances of the type and subtypes existing at that point, solvable iff some instance fits, the choice is one that fits; plus pinned constructor / initialiser / field-chain programs.',
+    technique='TLA+ reference semantics of object variables as generator + oracle; TLC validation of recorded solutions'),
+ 'C18': dict(cat='exploration', design='3/C18',
+    note='Termination and absence of aborts are decided on the recorded traces by the trace specifications (an abort / hang line is never accepted); memory errors and leaks are only observed through AddressSanitizer / UndefinedBehaviorSanitizer (vptr check off: core passes this to a base class before construction), not decided by TLC. Leak sites listed in known_findings.jsonl are reported as KNOWN-FINDING.',
+    text='Lexer inputs (all strings up to length 4/5 over the critical alphabet), parser inputs (every repository example whole, truncated, with seeded noise; malformed programs), every repository example and generated family through read()+solve() in Debug and ASan+UBSan builds, and seeded network API histories under the sanitizers: every run must return (result or reported error) within its budget; aborts, failed assertions, uncaught exceptions, sanitizer reports and unlisted leak sites are violations.',
+    technique='exploration with TLC trace specifications as the acceptance filter (LexTrace, PlanTrace, NetworkTrace) + sanitizer builds'),
+})
 NOT_YET = {
 }
 
